@@ -9,6 +9,7 @@
 -/
 import IpfixModel.Lemmas.Arith
 import IpfixModel.Lemmas.Sched
+import IpfixModel.Lemmas.FlowKey
 namespace Ipfix.C05
 open Agg
 
@@ -62,6 +63,80 @@ theorem one_flow_per_key (a i : Nat) (ops : List Op) :
 /-- the representability guard made visible: the throughput is computed in uint64, so when
     8 x growth does not fit 64 bits it wraps (outside the contract's guard) -/
 theorem throughput_wraps : thrOf (2 ^ 62) 0 2 1 = 0 ∧ thrOf (2 ^ 61 - 1) 0 2 1 = 8 * (2 ^ 61 - 1) := by decide
+
+/-! ## The flow key: "records with different 5-tuples", "one flow record per distinct 5-tuple"
+
+  `one_flow_per_key` and `other_keys_unaffected` speak of keys; these theorems say what a key IS - the walk
+  of getFlowKeyFromRecord (`FlowKey.keyLoop`, Model/FlowKey.lean) over a record. -/
+section FlowKeyProps
+open FlowKey
+
+/-- the walk over the seven element names computes the closed form -/
+theorem key_walk_closed_form (r : KeyRec) : keyLoop r = flowKey r := keyLoop_eq_flowKey r
+
+/-- a record has a key exactly when it carries both ports, the protocol and, for each side, an IPv4 or an
+    IPv6 address; otherwise the record is refused -/
+theorem key_defined_iff (r : KeyRec) :
+    (keyLoop r).isSome = (r.sport.isSome && r.dport.isSome && r.proto.isSome &&
+      (r.src4.isSome || r.src6.isSome) && (r.dst4.isSome || r.dst6.isSome)) := by
+  rw [keyLoop_eq_flowKey]; exact flowKey_some_iff r
+
+/-- two records get the same key exactly when they denote the same 5-tuple: same ports, same protocol, the
+    same source and the same destination address - whatever byte form the addresses are handed over in.
+    So distinct 5-tuples never share a flow record and one 5-tuple never has two. -/
+theorem key_distinguishes_exactly_the_five_tuple (r1 r2 : KeyRec) (k1 k2 : Key) (f1 f2 : Bool)
+    (h1 : keyLoop r1 = some (k1, f1)) (h2 : keyLoop r2 = some (k2, f2)) :
+    k1 = k2 ↔ sameTuple r1 r2 = true := by
+  rw [keyLoop_eq_flowKey] at h1 h2; exact flowKey_eq_iff r1 r2 k1 k2 f1 f2 h1 h2
+
+/-- "the same address": two address values print alike exactly when their 16-byte forms agree (a value that
+    has none - no bytes, a length that is neither 4 nor 16 - only equals itself) -/
+theorem same_text_iff_same_address (a b : Bytes) : ipText a = ipText b ↔ canon a = canon b := ipText_eq_iff a b
+
+/-- an IPv4 address in its 4-byte form and in its 16-byte form is one address -/
+theorem key_address_form_independent (a b c d : UInt8) :
+    ipText [a, b, c, d] = ipText (v4InV6Prefix ++ [a, b, c, d]) := by
+  rw [ipText_eq_iff]; simp [canon, to16, v4InV6Prefix]
+
+/-- an IPv6 address of a side whose IPv4 address the record carries is never consulted -/
+theorem key_ignores_ipv6_when_ipv4_present (r : KeyRec) (s4 d4 : Bytes) (x y : Option Bytes) :
+    keyLoop { r with src4 := some s4, dst4 := some d4, src6 := x, dst6 := y } =
+    keyLoop { r with src4 := some s4, dst4 := some d4 } := by
+  simp only [keyLoop_eq_flowKey, flowKey, sideAddr]
+
+/-- the second result: both IPv4 addresses were there -/
+theorem key_ipv4_flag (r : KeyRec) (k : Key) (f : Bool) (h : keyLoop r = some (k, f)) :
+    f = (r.src4.isSome && r.dst4.isSome) := by
+  rw [keyLoop_eq_flowKey] at h
+  obtain ⟨_, _, _, _, _, _, _, _, _, _, _, hf⟩ := flowKey_some h
+  exact hf
+
+/-- records that differ in ONE component of the 5-tuple have different keys (each component is in the key) -/
+theorem key_has_every_component (r : KeyRec) (k k' : Key) (f f' : Bool) (h : keyLoop r = some (k, f)) :
+    (∀ p, r.proto ≠ some p → keyLoop { r with proto := some p } = some (k', f') → k ≠ k') ∧
+    (∀ p, r.sport ≠ some p → keyLoop { r with sport := some p } = some (k', f') → k ≠ k') ∧
+    (∀ p, r.dport ≠ some p → keyLoop { r with dport := some p } = some (k', f') → k ≠ k') := by
+  refine ⟨?_, ?_, ?_⟩ <;>
+  · intro p hp h' heq
+    have := (key_distinguishes_exactly_the_five_tuple _ _ _ _ _ _ h h').mp heq
+    simp [sameTuple] at this
+    simp_all
+
+/-- non-vacuity: two TCP flows between the same hosts and ports, one seen as UDP; an IPv4 flow reported with
+    16-byte addresses; a record without a destination address -/
+example :
+    keyLoop ⟨some 1234, some 80, some 6, some [10,0,0,1], some [10,0,0,2], none, none⟩ =
+      some ({ src := .v4 [10,0,0,1], dst := .v4 [10,0,0,2], proto := 6, sport := 1234, dport := 80 }, true) ∧
+    keyLoop ⟨some 1234, some 80, some 17, some [10,0,0,1], some [10,0,0,2], none, none⟩ ≠
+      keyLoop ⟨some 1234, some 80, some 6, some [10,0,0,1], some [10,0,0,2], none, none⟩ ∧
+    keyLoop ⟨some 1234, some 80, some 6, some (v4InV6Prefix ++ [10,0,0,1]), some (v4InV6Prefix ++ [10,0,0,2]), none, none⟩ =
+      keyLoop ⟨some 1234, some 80, some 6, some [10,0,0,1], some [10,0,0,2], none, none⟩ ∧
+    keyLoop ⟨some 1234, some 80, some 6, some [10,0,0,1], none, none, none⟩ = none ∧
+    keyLoop ⟨some 1234, some 80, some 6, none, none, some (List.replicate 15 0 ++ [1]), some (List.replicate 15 0 ++ [2])⟩ =
+      some ({ src := .v6 (List.replicate 15 0 ++ [1]), dst := .v6 (List.replicate 15 0 ++ [2]), proto := 6, sport := 1234, dport := 80 }, false) := by
+  decide
+
+end FlowKeyProps
 
 /-! ## httpVals
 
